@@ -32,7 +32,7 @@ def c14(pid, tier, replay):
         with open(replay) as f:
             insts = [json.load(f)["instance"]]
     else:
-        insts = grammars(seed, 400 if tier == "thorough" else 60)
+        insts = grammars(seed, 3000 if tier == "thorough" else 60)
     job = os.path.join(res.wd, "job.json")
     trace = os.path.join(res.wd, "trace.ndjson")
     with open(job, "w") as f:
@@ -106,9 +106,9 @@ def c15(pid, tier, replay):
         with open(replay) as f:
             insts = [json.load(f)["instance"]]
     else:
-        insts = grammars(seed, 300 if thorough else 60)
+        insts = grammars(seed, 2000 if thorough else 60)
         rng = random.Random(seed)
-        for i in range(40 if thorough else 10):
+        for i in range(300 if thorough else 10):
             d = genyacc.gen_doc(rng, kind="eco")
             y, _ = genyacc.render(d, rng)
             insts.append(dict(id="eco%d" % i, y=y, kind="eco"))
@@ -143,7 +143,7 @@ def c15(pid, tier, replay):
     cand = [i for i in insts if i["kind"] in ("original", "original_noaction") and not i["id"].startswith("doc")]
     rng3 = random.Random(seed * 7 + 3)
     rng3.shuffle(cand)
-    for i in cand[:(40 if thorough else 8)]:
+    for i in cand[:(150 if thorough else 8)]:
         mods.append(("sampled-" + i["id"], i["y"], LANY, False))      # (ids must differ from the fixed modules above)
     built_ok = 0
     for gi, (mid, ytext, ltext, eoc) in enumerate(mods):
